@@ -33,6 +33,7 @@ type c06Op struct {
 	Tree    nodeJ  `json:"tree"`
 	Atomics []int  `json:"atomics"`
 	Dev     bool   `json:"dev,omitempty"`
+	Via     string `json:"via,omitempty"` // "config": the logger (and its development mode) comes from zap.Config.Build
 	OnPanic string `json:"onPanic"`
 	OnFatal string `json:"onFatal"`
 	FE      string `json:"fe"`
@@ -143,6 +144,9 @@ func c06Gen(r *Rand, tier string, emit func(op any)) {
 						if fe.fields {
 							op.Fs = kf(60)
 						}
+						if l == 3 && (ti+hi)%2 == 0 {
+							op.Via = "config" // DPanic: half of the grid takes its development mode from a Config
+						}
 						want := c06Expected(&op, l)
 						if want == "FATAL" {
 							// a real exit: only observable from outside
@@ -187,6 +191,9 @@ func c06Gen(r *Rand, tier string, emit func(op any)) {
 		if fe.fields {
 			op.Fs = g.keys(2)
 		}
+		if i%3 == 1 {
+			op.Via = "config"
+		}
 		emit(op)
 	}
 }
@@ -221,6 +228,16 @@ func c06Logger(op *c06Op, w *world) *zap.Logger {
 	var opts []zap.Option
 	opts = append(opts, hookOption(op.OnPanic, w.rec, "panic", true)...)
 	opts = append(opts, hookOption(op.OnFatal, w.rec, "fatal", false)...)
+	if op.Via == "config" {
+		// the same logger built the way NewDevelopment / NewProduction build theirs: the mode is Config.Development and
+		// reaches the logger through Config.buildOptions (mutants config.go#15/#16 broke exactly that plumbing)
+		cfg := zap.Config{Level: zap.NewAtomicLevelAt(zapcore.DebugLevel), Development: op.Dev, Encoding: "json",
+			DisableCaller: true, DisableStacktrace: true}
+		opts = append(opts, zap.WrapCore(func(zapcore.Core) zapcore.Core { return core }))
+		l, err := cfg.Build(opts...)
+		must(err)
+		return l
+	}
 	if op.Dev {
 		opts = append(opts, zap.Development())
 	}
